@@ -5,6 +5,7 @@ CONSTANT J16Max = 1
 CONSTANT J16Len = 1
 CONSTANT YMin = 0
 CONSTANT YMax = 0
+CONSTANT YAll = 0
 INIT Init
 NEXT Next
 INVARIANTS Laws Emit
